@@ -161,6 +161,35 @@ func runC13(r *lib.Run) {
 				sort.Strings(kinds)
 				nops := 1 + rng.Intn(3)
 				var ops []setOp
+				// prefer, half of the time, a single target whose path repeats its own beginning
+				var reps []setOp
+				for _, c := range cands {
+					for m := 1; 2*m <= len(c.elems); m++ {
+						rep := true
+						for x := 0; x < m; x++ {
+							if c.elems[x].String() != c.elems[m+x].String() {
+								rep = false
+							}
+						}
+						if rep && len(c.elems[m-1].Keys) > 0 {
+							reps = append(reps, c)
+							break
+						}
+					}
+				}
+				if len(reps) > 0 && rng.Intn(2) == 0 {
+					o := reps[rng.Intn(len(reps))]
+					o.op = []string{"delete", "replace", "update", "update"}[rng.Intn(4)]
+					if o.isKey || o.kind == "whole-list" || o.kind == "ordered-list-node" {
+						o.op = "update"
+					}
+					if o.op == "delete" || payloadFor(&o) == nil {
+						if !(o.kind == "whole-list" || o.kind == "ordered-list-node") {
+							ops = append(ops, o)
+							nops = 0
+						}
+					}
+				}
 				for k := 0; k < nops; k++ {
 					ks := byKind[kinds[rng.Intn(len(kinds))]]
 					o := ks[rng.Intn(len(ks))]
@@ -227,6 +256,21 @@ func runC13(r *lib.Run) {
 				}
 				if k == minLen && k > 0 {
 					k--
+				}
+				// a target whose path repeats its own beginning (a list nested in an entry of a list of
+				// the same name and key): split exactly there, so that the relative paths start with the
+				// same elements as the prefix
+				for m := 1; 2*m <= minLen && len(ops) == 1; m++ {
+					rep := true
+					for x := 0; x < m; x++ {
+						if ops[0].elems[x].String() != ops[0].elems[m+x].String() {
+							rep = false
+						}
+					}
+					if rep && rng.Intn(4) > 0 {
+						k = m
+						r.Hit("prefix-repeated-in-relative-path")
+					}
 				}
 				req := &gpb.SetRequest{}
 				req.Prefix, _ = splitPath(ops[0].elems, k)
@@ -354,7 +398,7 @@ func runC13(r *lib.Run) {
 		}
 		c13Atomic(r, cfg)
 	}
-	r.RequireCov("request-ok", "op:delete:leaf", "op:replace:container", "op:update:list-entry", "op:update:leaf", "op:replace:ordered-container", "atomic-ok", "same-path-updated-twice")
+	r.RequireCov("request-ok", "op:delete:leaf", "op:replace:container", "op:update:list-entry", "op:update:leaf", "op:replace:ordered-container", "atomic-ok", "same-path-updated-twice", "prefix-repeated-in-relative-path")
 }
 
 func mustElems(o *lib.Obs, listPath string) []lib.PathElem {
